@@ -24,5 +24,5 @@ pub assume_specification[ core::str::Utf8Error::valid_up_to ](e: &core::str::Utf
     ensures r == utf8_err_upto(*e);
 
 //@trusted T2 Vec::<T>::from(&[T]) clones the slice element by element (for u8: a copy)
-pub assume_specification<T: Clone>[ <Vec<T> as core::convert::From<&[T]>>::from ](s: &[T]) -> (v: Vec<T>)
+pub assume_specification<'a, T: Clone>[ <Vec<T> as core::convert::From<&'a [T]>>::from ](s: &[T]) -> (v: Vec<T>)
     ensures v@.len() == s@.len(), forall|i: int| 0 <= i < s@.len() ==> vstd::prelude::cloned::<T>(#[trigger] s@[i], v@[i]);
